@@ -131,7 +131,7 @@ func (this *ETHHandler) SyncBlockHeader(native *native.NativeService) error {
 		3. current time
 		*/
 		// verify whether current height is parent height plus one
-		if header.Number.Uint64() != parentHeader.Number.Uint64()+1 {
+		if new(big.Int).Sub(header.Number, parentHeader.Number).Cmp(big.NewInt(1)) != 0 {
 			return fmt.Errorf("SyncBlockHeader, invalid header height:%d parent height:%d", header.Number.Uint64(), parentHeader.Number.Uint64())
 		}
 		//verify whether parent hash validity
